@@ -37,6 +37,7 @@ KINDS = {
  'C_SetPIN(user)':      dict(pre=pre_user, call=lambda x, e: x.call('C_SetPIN', s=e['s'], old=U0.hex(), new=U1.hex()), written=[], token_level='userpin'),
  'C_SetPIN(so)':        dict(pre=pre_so, call=lambda x, e: x.call('C_SetPIN', s=e['s'], old=SO0.hex(), new=SO1.hex()), written=[], token_level='sopin'),
  'C_InitPIN':           dict(pre=pre_so, call=lambda x, e: x.call('C_InitPIN', s=e['s'], pin=U1.hex()), written=[], token_level='userpin'),
+ 'C_InitPIN(first)':    dict(pre=lambda x, e: (x.call('C_InitToken', slot=e['slot'], pin=SO0.hex(), label=b'tokA'.hex()), pre_so(x, e)), call=lambda x, e: x.call('C_InitPIN', s=e['s'], pin=U1.hex()), written=[], token_level='userpin', s0_after_pre=True),
  'C_InitToken(re-init)': dict(pre=pre_none, call=lambda x, e: x.call('C_InitToken', slot=e['slot'], pin=SO0.hex(), label=b'tokA-new'.hex()), written='ALL', token_level='reinit'),
  'C_InitToken(fresh)':  dict(pre=pre_none, call=lambda x, e: x.call('C_InitToken', slot=e['free'], pin=SO1.hex(), label=b'tokB'.hex()), written=[], token_level='fresh'),
  'C_CreateObject(private-key)': dict(pre=pre_user, call=lambda x, e: x.call('C_CreateObject', s=e['s'], tmpl=x.T(dict(KT(x)['aes'], CKA_TOKEN=True, CKA_PRIVATE=True, CKA_LABEL=b'NEW', CKA_ID=b'\x09'))), written=['NEW']),
@@ -78,7 +79,7 @@ def make_template(paths, ck, d, backend, big=False):
     for f in os.listdir(d):
         if f.startswith(('stderr', 'trace')): os.unlink(os.path.join(d, f))
 
-def probe(paths, ck, d, cfg='asan'):
+def probe(paths, ck, d, cfg='asan', usability=()):
     """recovery in a fresh process: returns a snapshot dict; raises Died / Hang"""
     x = mk_exec(paths, ck, cfg, d); x.timeout = 60; snap = {'tokens': {}}
     try:
@@ -109,6 +110,18 @@ def probe(paths, ck, d, cfg='asan'):
                     else: o['use'] = r1['rvname']
                 while lab in t['objects']: lab += '#dup'
                 t['objects'][lab] = o
+            # usability: what is there can be removed again, and the token accepts new objects (a state that can only be reached by a crash must not be a trap)
+            if t['user'] and usability and label in ('tokA', 'tokA-new'):
+                u = {}
+                for lab2, o2 in list(t['objects'].items()):
+                    base = lab2.split('#')[0]
+                    if base in usability:
+                        rvn, hs2 = x.findall(s, {'CKA_LABEL': base.encode('latin-1')})
+                        for h2 in hs2[:2]: u.setdefault('destroy:' + base, []).append(x.call('C_DestroyObject', s=s, o=h2)['rvname'])
+                r3 = x.call('C_CreateObject', s=s, tmpl=x.T({'CKA_CLASS': ck.CKO_DATA, 'CKA_TOKEN': True, 'CKA_PRIVATE': False, 'CKA_LABEL': b'after-recovery', 'CKA_VALUE': b'z'}))
+                u['create'] = r3['rvname']
+                if r3['rv'] == 0: u['create-destroy'] = x.call('C_DestroyObject', s=s, o=r3['h'])['rvname']
+                t['usability'] = u
             x.call('C_CloseSession', s=s); snap['tokens'][label] = t
         snap['finalize'] = x.call('C_Finalize')['rvname']
         return snap
@@ -127,6 +140,7 @@ def run_victim(paths, ck, d, kind, arm):
             if ti['rv'] == 0 and (ti['flags'] & ck.CKF_TOKEN_INITIALIZED): e['slot'] = sl
             else: e['free'] = sl
         K['pre'](x, e)
+        if arm == 'pre-only': x.call('C_Finalize'); return 'returned', (None, None)
         if arm is None: x.call('fs', mode='count', root=root)
         else: x.call('fs', mode='crash', root=root, k=arm['k'], when=arm['when'], torn=arm.get('torn', -1))
         try: r = K['call'](x, e)
@@ -191,6 +205,14 @@ def judge(kind, S0, S1, R, part, cp, witness):
                     if o1 is not None and o1.get(va) and not o.get(va): ok = False
             if not ok: out.append('written-object-' + ('lost' if o is None else 'neither-old-nor-new(half-written object returned as valid)'))
     elif A0['user'] and tl not in ('reinit',) and 'user-pin-lost' not in out: out.append('user-pin-lost')
+    # CKF_USER_PIN_INITIALIZED must tell the truth about whether a user PIN logs in
+    if A.get('user_pin_flag') is not None and bool(A['user']) != bool(A['user_pin_flag']) and 'user-pin-lost' not in out:
+        out.append('user-pin-flag-disagrees-with-working-pin(flag=%s)' % A['user_pin_flag'])
+    U = A.get('usability') or {}
+    for k2, v in U.items():
+        vals = v if isinstance(v, list) else [v]
+        if any(x2 != 'CKR_OK' for x2 in vals):
+            out.append('after-recovery-' + (k2.split(':')[0] if ':' in k2 else k2) + '-fails')
     if tl == 'fresh':
         B = toks.get('tokB')
         if B is not None and (B.get('so') != ['SO1'] or B.get('open') or B.get('find') != 'CKR_OK'): out.append('new-token-half-initialised')
@@ -215,7 +237,7 @@ def crash_job(job):
         how, res = run_victim(job['paths'], ck, d, kind, arm)
         if how != 'died' or not res or not str(res.get('died', '')).startswith('crash'):
             part.inconc(f'victim did not die at the armed point: {kind} {arm} -> {how} {res if how == "died" else ""}'); return part
-        try: R = probe(job['paths'], ck, d)
+        try: R = probe(job['paths'], ck, d, usability=tuple(KINDS[kind]['written']) if KINDS[kind]['written'] != 'ALL' else ())
         except Died as ex:
             part.violation(f'{key_prefix}|recovery-crash({ex.kind()}@{ex.where()})', 'the recovering process crashed', {'kind': kind, 'arm': arm, 'backend': backend, 'stderr': (ex.stderr_tail or '')[-1500:]}); part.case((kind, arm['k'], arm['when'], arm.get('torn', -1), backend)); return part
         except Hang:
@@ -233,7 +255,7 @@ def crash_job(job):
 def run(ctx):
     ctx.need('plain', 'asan'); ck = ctx.ck
     kinds = list(KINDS); backends = ('file', 'db'); jobs = []; idx = 0; plan = {}
-    QUICK_DB = ('C_SetAttributeValue', 'C_SetAttributeValue(multi)', 'C_DestroyObject', 'C_SetPIN(user)', 'C_Login(wrong-pin)', 'C_InitPIN')
+    QUICK_DB = ('C_SetAttributeValue', 'C_SetAttributeValue(multi)', 'C_DestroyObject', 'C_SetPIN(user)', 'C_Login(wrong-pin)', 'C_InitPIN', 'C_InitPIN(first)')
     for backend in backends:
         for big in ((False,) if ctx.quick else (False, True)):
             tdir = ctx.dir(f'template-{backend}-{int(big)}'); make_template(ctx.paths, ck, tdir, backend, big)
@@ -253,6 +275,9 @@ def run(ctx):
                     else: ctx.inconc(f'dry run of {kind} returned {reply["rvname"]}')
                     continue
                 S1 = probe(ctx.paths, ck, d); n = len(trace); plan[f'{kind}/{backend}/{"big" if big else "small"}'] = n
+                S0k = S0
+                if KINDS[kind].get('s0_after_pre'):      # the state before the interrupted call is the one after this kind's own preparation (e.g. a token that has no user PIN yet)
+                    d0 = ctx.dir('pre'); shutil.rmtree(d0); shutil.copytree(tdir, d0); mkconf(d0, backend); run_victim(ctx.paths, ck, d0, kind, 'pre-only'); S0k = probe(ctx.paths, ck, d0)
                 if n == 0: ctx.observe('call performs no FS operation on this back-end (nothing to interrupt)', f'{kind}/{backend}'); continue
                 for (k, opkind, path) in trace:
                     full = os.path.join(tdir, 'tokens') + path; role = role_of(path)
@@ -263,7 +288,7 @@ def run(ctx):
                         for frac in ('1', 'half', 'len-1'):
                             jobs.append(dict(kind=kind, arm={'k': k, 'when': 'after', 'torn': frac}, opkind=opkind, role=role, op=[k, opkind, path]))
                 for j in jobs:
-                    if 'template' not in j: j.update(template=tdir, S0=S0, S1=S1, backend=backend, paths=ctx.paths, hdr=ctx.paths['asan']['hdr'], scratch=ctx.scratch)
+                    if 'template' not in j: j.update(template=tdir, S0=S0k, S1=S1, backend=backend, paths=ctx.paths, hdr=ctx.paths['asan']['hdr'], scratch=ctx.scratch)
     # torn sizes need the file length at that point: resolved in the victim as a fraction -> use sizes from S1 files is not possible; approximate with absolute sizes
     final = []
     for j in jobs:
